@@ -160,6 +160,11 @@ def Pinned (i : Inp α) (v minCons : α) : Prop :=
   (if i.pop < 1e7 then 0.9999 * minCons else 0.99999 * minCons) ≤ v ∧
   v ≤ (if i.pop < 1e7 then 1.0001 * minCons else 1.00001 * minCons)
 
+/-- `v` is at least the lower end of the tolerance band around `minCons`: seaweed after the repair
+    of the round-2 infeasibility (what has grown must be harvested, so people may eat more) -/
+def PinnedLower (i : Inp α) (v minCons : α) : Prop :=
+  (if i.pop < 1e7 then 0.9999 * minCons else 0.99999 * minCons) ≤ v
+
 /-- feed and biofuel share caps of one resilient food in month `m` -/
 def ShareOK (i : Inp α) (on : Bool) (ratio : α) (vF vB : Nat → α) (limF limB : α) (m : Nat) : Prop :=
   on = true →
@@ -201,9 +206,9 @@ structure PhysFeasibleFeed (i : Inp α) (a : Alloc α) : Prop where
     (feedTotal i a.toVar m ≤ at' i.maxFeed m ∧ biofuelTotal i a.toVar m ≤ at' i.maxBiofuel m) ∧
     (0 < m → feedTotal i a.toVar m ≤ feedTotal i a.toVar (m - 1) ∧
              biofuelTotal i a.toVar m ≤ biofuelTotal i a.toVar (m - 1))
-  /-- people keep their share of each of the six foods -/
+  /-- people keep their share of each of the six foods (seaweed: at least their share) -/
   pinSeaweed : i.addSeaweed = true → ∀ m, m < i.nmonths →
-    Pinned i (a.swHumans m * i.seaweedKcals) (at' i.minSeaweed m)
+    PinnedLower i (a.swHumans m * i.seaweedKcals) (at' i.minSeaweed m)
   pinCrops : i.addOutdoor = true → ∀ m, m < i.nmonths → Pinned i (a.cropHumans m) (at' i.minCrops m)
   pinStored : i.addStored = true → ∀ m, m < i.nmonths → Pinned i (a.sfHumans m) (at' i.minStored m)
   pinMeat : i.addMeat = true → ∀ m, m < i.nmonths → Pinned i (a.meatEaten m) (at' i.minMeat m)
@@ -215,6 +220,23 @@ structure PhysFeasibleFeed (i : Inp α) (a : Alloc α) : Prop where
   shareCs : ∀ m, m < i.nmonths → ShareOK i i.addCs 1 a.csFeed a.csBiofuel i.limCsF i.limCsB m
   /-- the weighted total is a non-negative number -/
   valueNonneg : 0 ≤ feedValue i a
+
+/-- the minimum-consumption series of the feed-maximising round lie between 0 and what the point
+    `x` of the human-maximising round gives people of each food (seaweed in kcals); only the months
+    of the horizon and the resources that are switched on matter -/
+structure PinsWithin (i : Inp α) (x : Var → α) : Prop where
+  seaweed : i.addSeaweed = true → ∀ m, m < i.nmonths →
+    0 ≤ at' i.minSeaweed m ∧ at' i.minSeaweed m ≤ x (.mv .swHumans m) * i.seaweedKcals
+  crops : i.addOutdoor = true → ∀ m, m < i.nmonths →
+    0 ≤ at' i.minCrops m ∧ at' i.minCrops m ≤ x (.mv .cropHumans m)
+  stored : i.addStored = true → ∀ m, m < i.nmonths →
+    0 ≤ at' i.minStored m ∧ at' i.minStored m ≤ x (.mv .sfHumans m)
+  meat : i.addMeat = true → ∀ m, m < i.nmonths →
+    0 ≤ at' i.minMeat m ∧ at' i.minMeat m ≤ x (.mv .meatEaten m)
+  scp : i.addScp = true → ∀ m, m < i.nmonths →
+    0 ≤ at' i.minScp m ∧ at' i.minScp m ≤ x (.mv .scpHumans m)
+  cs : i.addCs = true → ∀ m, m < i.nmonths →
+    0 ≤ at' i.minCs m ∧ at' i.minCs m ≤ x (.mv .csHumans m)
 
 end
 end Allfed.AllocSpec
